@@ -128,6 +128,14 @@ def run_impl(w, sc):
             return (0, len(tyrank))
 
     RANK["fn"] = rank
+    orig_resolve = tmod.MultiTypeMap.resolve
+    nres = [0]
+
+    def counting_resolve(self_, key):
+        nres[0] += 1
+        return orig_resolve(self_, key)
+
+    tmod.MultiTypeMap.resolve = counting_resolve
     try:
         mm = tmod.MultiTypeMap(name="t", key_error=TableError)
         handlers = {}
@@ -158,6 +166,8 @@ def run_impl(w, sc):
         out = []
         for op in sc["ops"]:
             res = None
+            nres[0] = 0
+            preds0 = sum(w.pred_calls)
             if op[0] == "reg":
                 m = sc["meths"][op[1]]
                 mm.register(make_sig(w, m), handlers[m["id"]])
@@ -187,10 +197,11 @@ def run_impl(w, sc):
                             ti = str(i)
                             break
                     tk.add(f"{sn}:{ti}")
-            out.append({"r": res, "ck": ck, "ek": ek, "ak": ak, "tk": sorted(tk)})
+            out.append({"r": res, "ck": ck, "ek": ek, "ak": ak, "tk": sorted(tk), "nres": nres[0], "npred": sum(w.pred_calls) - preds0})
         return out
     finally:
         RANK["fn"] = None
+        tmod.MultiTypeMap.resolve = orig_resolve
 
 
 def gen_scenario(rng, static_only=True, features=True, nuser=None, kinds=None, nmeth=None, npos_max=3, kw=True):
@@ -265,7 +276,7 @@ def gen_scenario(rng, static_only=True, features=True, nuser=None, kinds=None, n
         if k not in keys:
             keys.append(k)
     ops = []
-    late = [i for i in range(nmeth) if rng.random() < 0.2]
+    late = [i for i in range(nmeth) if rng.random() < 0.3]
     for i in range(nmeth):
         if i not in late:
             ops.append(["reg", i])
@@ -273,14 +284,19 @@ def gen_scenario(rng, static_only=True, features=True, nuser=None, kinds=None, n
         ops.append(["reg", 0])
         late = [i for i in late if i != 0]
     nget = rng.randint(3, 14)
+    asked = []
     for _ in range(nget):
-        if late and rng.random() < 0.2:
+        if late and rng.random() < 0.25:
             ops.append(["reg", late.pop(0)])
+            # look the earlier keys up again: nothing computed before the change may survive it (C05)
+            for g in rng.sample(asked, min(len(asked), rng.randint(1, 3))):
+                ops.append(list(g))
         ki = rng.randrange(len(keys))
         c = None
         if rng.random() < 0.4:
             c = 100 + rng.randrange(nmeth)
         ops.append(["get", c, ki])
+        asked.append(["get", c, ki])
     # ranks
     alltys = []
     for m in meths:
@@ -333,7 +349,11 @@ def run(seed, n, **kw):
                 hist[b["r"][0]] = hist.get(b["r"][0], 0) + 1
             a = dict(a)
             if isinstance(a["r"], dict):
+                a["nres"] = a["r"]["nres"]
                 a["r"] = a["r"]["res"]
+            b = {k: v for k, v in b.items() if k != "npred" and (k != "nres" or "nres" in a)}
+            if b.get("r") == ["cycle"]:
+                b.pop("nres", None); a.pop("nres", None)
             if a != b:
                 diffs.append((i, j, "model", a, "impl", b, keep[i][1]["ops"][j]))
                 break
